@@ -362,8 +362,8 @@ func VerifSelftestRepo() {
 	vObserve("mgr-size", mgr.Size())
 }
 
-// VerifSelftestPool is run in the engine only (the reuse of pooled objects is not deterministic
-// natively): the model yields, for a Get after a Put, both the reused and a fresh object.
+// VerifSelftestPool is run in the engine only (the reuse of pooled objects is not guaranteed
+// natively): the model reuses the most recently put object.
 func VerifSelftestPool() {
 	type box struct{ v int }
 	pool := sync.Pool{New: func() interface{} { return &box{v: -1} }}
